@@ -345,7 +345,7 @@ MANIFEST = {
 
 
 def run(ctx):
-    ctx.search("history", cases(), quick=1300, thorough=4000)
+    ctx.search("history", cases(), quick=1300, thorough=10000)
 
 
 MUTANTS = [
